@@ -113,6 +113,22 @@ ENV_OPTS = [{"async": False, "sandbox": 0}] * 6 + [{"async": True, "sandbox": 0}
                                                                                    {"async": True, "sandbox": 1}]
 
 
+def ae_setting(mode, autoescape_on=True):
+    """The ``autoescape`` argument of the environment for one mode (enabled or the matching disabled configuration)."""
+    import jinja2
+
+    m = mode["m"]
+    if m in ("static", "nested"):
+        return bool(autoescape_on)
+    if m == "select":
+        if mode["ext"].lower().rsplit(".", 1)[-1] in ("html", "htm", "xml", "xhtml"):
+            return jinja2.select_autoescape(enabled_extensions=("html", "htm", "xml", "xhtml") if autoescape_on else ("none",), default_for_string=False)
+        return jinja2.select_autoescape(enabled_extensions=(), disabled_extensions=("txt",), default=bool(autoescape_on), default_for_string=False)
+    if m == "string":
+        return jinja2.select_autoescape(enabled_extensions=("html",) if autoescape_on else (), default_for_string=bool(autoescape_on))
+    return False
+
+
 def make_env(sources, mode, autoescape_on=True, opts=None):
     """Environment for one mode; ``autoescape_on=False`` builds the matching *disabled* configuration (C16's other side).
     ``opts`` = {"async": bool, "sandbox": 0 | 1 (SandboxedEnvironment) | 2 (ImmutableSandboxedEnvironment)}; templates of an
@@ -124,19 +140,7 @@ def make_env(sources, mode, autoescape_on=True, opts=None):
     cls = (jinja2.Environment, jinja2.sandbox.SandboxedEnvironment, jinja2.sandbox.ImmutableSandboxedEnvironment)[opts.get("sandbox", 0)]
 
     m = mode["m"]
-    if m == "static":
-        ae = bool(autoescape_on)
-    elif m == "select":
-        if mode["ext"].lower().rsplit(".", 1)[-1] in ("html", "htm", "xml", "xhtml"):
-            ae = jinja2.select_autoescape(enabled_extensions=("html", "htm", "xml", "xhtml") if autoescape_on else ("none",), default_for_string=False)
-        else:
-            ae = jinja2.select_autoescape(enabled_extensions=(), disabled_extensions=("txt",), default=bool(autoescape_on), default_for_string=False)
-    elif m == "string":
-        ae = jinja2.select_autoescape(enabled_extensions=("html",) if autoescape_on else (), default_for_string=bool(autoescape_on))
-    elif m == "nested":
-        ae = bool(autoescape_on)
-    else:
-        ae = False
+    ae = ae_setting(mode, autoescape_on)
     env = cls(loader=jinja2.DictLoader(sources), autoescape=ae, extensions=["jinja2.ext.loopcontrols"], enable_async=bool(opts.get("async")))
     env.policies["json.dumps_function"] = _dumps
     if m == "volatile":
